@@ -416,6 +416,11 @@ class CrossEntropyLoss(nn.CrossEntropyLoss):
             reduction=reduction,
             label_smoothing=label_smoothing,
         )
+        if reduction not in ("mean", "sum"):
+            raise ValueError(
+                f"Support for reduction='{reduction}' has not been implemented for"
+                " the unit-scaling library. Please use 'mean' or 'sum'."
+            )
         self.mult = mult
 
     def forward(self, input: Tensor, target: Tensor) -> Tensor:
